@@ -36,7 +36,7 @@ impl Slot {
             tab.fresh_idx += 4;
             #[cfg(slotted_egraphs_verif)]
             {
-                tab.fresh_idx += 4 * crate::verif::fresh_stride();
+                tab.fresh_idx = tab.fresh_idx.saturating_add(4 * crate::verif::fresh_stride());
             }
             Slot(old_val)
         })
